@@ -11,7 +11,7 @@ from ..semwalk import events_of, iter_tnodes
 from ..vals import (
     Cst, Fresh, Func, Lowered, Obj, PList, Rep, Splice, SVal, TNode, Transf, UNode, UPrim, Unknown,
 )
-from .common import cached, kinds_label, path_events, preset_templates, short_ctx
+from .common import cached, kinds_label, norm_path, path_events, preset_templates, short_ctx
 
 EXPLANATION = (
     "Protocol rules between conversion-time counters and run-time flags, decided on the effects and "
@@ -749,4 +749,98 @@ def rule_siblings(ctx):
     return rule_r2(ctx)
 
 
-RULES = [("C01-R2", rule_siblings), ("C05-R1", rule_r1), ("C05-R2", rule_r23), ("C05-R3", rule_r3_wrapper), ("C05-R4", rule_r4), ("C05-R5", rule_r5), ("C05-R6", rule_r6), ("C05-IB", rule_ib)]
+# library routines that ask the TRUTH of what their predicate returns (first argument)
+_PREDICATE_CONSUMERS = {"takewhile", "dropwhile", "filter", "filterfalse"}
+
+
+def rule_r7(ctx):
+    """`while test:` asks the truth of the test (`bool(test)`: __bool__/__len__, None, '', [] are
+    false).  In the template the rewritten test has to end up where a truth value is asked: the result
+    of a predicate handed to takewhile()/filter(), a comprehension `if`, the test of `a if t else b`, a
+    non-final operand of and/or, the operand of `not`.  Anything else compares or passes the VALUE:
+    `iter(lambda: test, False)` stops on `test == False`, not on falsiness (`while stack:` never ends)."""
+    from ..vals import PList, TNode, Transf
+
+    rr = RuleResult("C05-R7", "the test of a while loop is consumed by a truth test (not compared, not passed on as a value)")
+    rr.floor = 2
+    entry = ctx.tmpl.pending_by_kind("While")
+    seen = set()
+
+    def walk(v, tested, found, depth=0):
+        if depth > 60:
+            return
+        if isinstance(v, Transf):
+            u = v.inner
+            path = norm_path(u.short_path()) if hasattr(u, "short_path") else ""
+            if path == "While.test":
+                found.append(tested)
+            return
+        if isinstance(v, PList):
+            for i in v.items:
+                walk(i, False, found, depth + 1)
+            return
+        if not isinstance(v, TNode):
+            for i in getattr(v, "items", []) or []:
+                walk(i, False, found, depth + 1)
+            return
+        f = v.fields
+        if v.kind == "BoolOp":
+            items = f["values"].items if isinstance(f.get("values"), PList) else []
+            for i, o in enumerate(items):
+                walk(o, True if i < len(items) - 1 else tested, found, depth + 1)
+            return
+        if v.kind == "UnaryOp" and isinstance(f.get("op"), TNode) and f["op"].kind == "Not":
+            walk(f.get("operand"), True, found, depth + 1)
+            return
+        if v.kind == "IfExp":
+            walk(f.get("test"), True, found, depth + 1)
+            walk(f.get("body"), tested, found, depth + 1)
+            walk(f.get("orelse"), tested, found, depth + 1)
+            return
+        if v.kind == "comprehension":
+            walk(f.get("target"), False, found, depth + 1)
+            walk(f.get("iter"), False, found, depth + 1)
+            ifs = f.get("ifs")
+            for i in (ifs.items if isinstance(ifs, PList) else []):
+                walk(i, True, found, depth + 1)
+            return
+        if v.kind == "Call":
+            fn = f.get("func")
+            name = None
+            if isinstance(fn, TNode) and fn.kind == "Attribute" and isinstance(fn.fields.get("attr"), Cst):
+                name = fn.fields["attr"].value
+            elif isinstance(fn, TNode) and fn.kind == "Name" and isinstance(fn.fields.get("id"), Cst):
+                name = fn.fields["id"].value
+            args = f["args"].items if isinstance(f.get("args"), PList) else []
+            walk(fn, False, found, depth + 1)
+            for i, a in enumerate(args):
+                if i == 0 and name in _PREDICATE_CONSUMERS and isinstance(a, TNode) and a.kind == "Lambda":
+                    walk(a.fields.get("args"), False, found, depth + 1)
+                    walk(a.fields.get("body"), True, found, depth + 1)
+                else:
+                    walk(a, False, found, depth + 1)
+            walk(f.get("keywords"), False, found, depth + 1)
+            return
+        for k, x in f.items():
+            walk(x, False, found, depth + 1)
+
+    for pr in entry.ok_paths():
+        rr.instances += 1
+        found = []
+        walk(pr.result, False, found)
+        what = f"While|test|{short_ctx(pr, 80)}"
+        if not found:
+            continue  # the hole is missing: reported by C07-R1 / C05-R5
+        if all(found):
+            rr.ok(what, sample={"rule": "C05-R7", "context": short_ctx(pr, 60), "verdict": "truth-tested"})
+        elif "nt" not in seen:
+            seen.add("nt")
+            rr.fail(
+                "C05-R7|While|test-not-truth-tested",
+                f"PendingWhile.get_result: the rewritten test of the loop does not end up in a position where its TRUTH is asked (predicate of takewhile/filter, comprehension `if`, and/or/not, conditional expression): e.g. `iter(lambda: test, False)` ends the loop when `test == False`, so `while stack:` / `while node:` (a test that becomes [], '', None) never stops [context: {short_ctx(pr, 100)}]",
+                what=what,
+            )
+    return rr
+
+
+RULES = [("C01-R2", rule_siblings), ("C05-R1", rule_r1), ("C05-R2", rule_r23), ("C05-R3", rule_r3_wrapper), ("C05-R4", rule_r4), ("C05-R5", rule_r5), ("C05-R6", rule_r6), ("C05-R7", rule_r7), ("C05-IB", rule_ib)]
